@@ -48,7 +48,8 @@ func zzSymCapMap(auth *zzAuth, entries int) (CapabilityMap, bool) {
 // c06Gate: whatever an unauthenticated connection sends, no message reaches a service other than
 // service 0 unless an earlier authenticate request on that connection carried accepted credentials.
 func c06Gate(frames int, withOther bool) {
-	auth := &zzAuth{user: sym.Str("good-user", 1), token: sym.Str("good-token", 1)}
+	// the accepted pair may have an empty user (token-only access policies)
+	auth := &zzAuth{user: sym.Str("good-user", sym.Choose("good-user-len", 2)), token: sym.Str("good-token", 1)}
 	l := newZZListener()
 	srv, err := StandAloneServer(l, auth, PrivateNamespace())
 	sym.Assert(err == nil, "server-started")
@@ -157,7 +158,8 @@ func zzIsDefaultCap(m CapabilityMap) bool {
 // the frame was an authenticate request with accepted credentials; otherwise its capability map is
 // untouched (so the pre-state assumption holds again for the next frame: histories of any length).
 func C06Step() {
-	auth := &zzAuth{user: sym.Str("good-user", 1), token: sym.Str("good-token", 1)}
+	// the accepted pair may have an empty user (token-only access policies)
+	auth := &zzAuth{user: sym.Str("good-user", sym.Choose("good-user-len", 2)), token: sym.Str("good-token", 1)}
 	l := newZZListener()
 	srv, err := StandAloneServer(l, auth, PrivateNamespace())
 	sym.Assert(err == nil, "server-started")
@@ -246,7 +248,8 @@ func C06OtherConn() {
 // C06Sequence: explicit two-frame histories: a failed authentication (wrong or wrongly-typed
 // credentials, forged state entry) followed by an arbitrary frame addressed to the probe service.
 func C06Sequence() {
-	auth := &zzAuth{user: sym.Str("good-user", 1), token: sym.Str("good-token", 1)}
+	// the accepted pair may have an empty user (token-only access policies)
+	auth := &zzAuth{user: sym.Str("good-user", sym.Choose("good-user-len", 2)), token: sym.Str("good-token", 1)}
 	l := newZZListener()
 	srv, _ := StandAloneServer(l, auth, PrivateNamespace())
 	probe := &zzProbe{}
